@@ -561,6 +561,36 @@ fn main() {
         jobs.push(Job { data: d.clone(), entry: Entry::Patch, bound: if d.len() > 1000 { run.pick(1, 2) } else { 2 }, compositions: small });
         jobs.push(Job { data: d.clone(), entry: Entry::File, bound: if d.len() > 1000 { 0 } else { 1 }, compositions: false });
     }
+    // '$' characters in front of, inside and behind the marker: every line of <= 5 (6) tokens over
+    // {'$', 'x', '$NetBSD', ' '} between two kept lines - the marker counts wherever its seven
+    // bytes stand, whatever '$' pairs precede it
+    {
+        const TOK: [&[u8]; 4] = [b"$", b"x", b"$NetBSD", b" "];
+        let max = run.pick(5, 6);
+        let mut idx: Vec<Vec<usize>> = vec![vec![]];
+        let mut n = 0usize;
+        for _ in 0..max {
+            let mut next = vec![];
+            for pre in &idx {
+                for k in 0..TOK.len() {
+                    let mut v = pre.clone();
+                    v.push(k);
+                    next.push(v);
+                }
+            }
+            for v in &next {
+                let mut c = b"a\n".to_vec();
+                for k in v {
+                    c.extend_from_slice(TOK[*k]);
+                }
+                c.extend_from_slice(b"\nb\n");
+                jobs.push(Job { data: c, entry: Entry::Patch, bound: 0, compositions: false });
+                n += 1;
+            }
+            idx = next;
+        }
+        run.bound(format!("{} patches whose middle line is a sequence of <= {} tokens over {{'$', 'x', '$NetBSD', ' '}} (default read schedule)", n, max));
+    }
     run.bound(format!("{} (input, entry point) jobs x 6 algorithms: lengths 0..={} and KiB boundaries, {} patch inputs, 16 dense-marker patches (a marker split at every stream offset); deviation bound 2 (3 for inputs <= 64 bytes in the thorough tier, 1 for multi-KiB inputs in the quick tier); all compositions for inputs <= {} bytes", jobs.len(), l, pi.len(), run.pick(8, 10)));
     par_items(&run, "C13 schedules", &jobs, |i, job, t| {
         for a in mdigest::ALGOS {
